@@ -662,14 +662,58 @@ func caseC03(c *Ctx) {
 	}
 	c.st.Sample(op.Kind, map[string]any{"program": prog, "op": op.String(), "markdown": string(doc)})
 
+	// an earlier From-Root operation on the same tree object must not change anything
+	if c.Chance(1, 3) {
+		wop := genFromRootOp(c, false)
+		if needsFS(wop) {
+			wop = Op{Kind: "output", FromRoot: true, Branch: branchSets[1+c.Draw(3)]}
+		}
+		c.Scenario["earlier_op_on_same_tree"] = wop.String()
+		c.st.Count("with-earlier-op")
+		dw := simfs.NewDisk(jail)
+		simfs.Install(dw)
+		execCall(&hCall{Kind: "op", Op: wop, Model: model}, root, filepath.Join(jail, "warm"), 0, false, nil, "")
+		simfs.Uninstall()
+	}
 	// From-Root on the built tree
 	hr := &hCall{Kind: "op", Op: op, Model: model, Prep: "exact"}
 	if op.Kind == "verify" && c.Draw(2) == 1 {
 		hr.Prep = "empty"
 	}
+	var got *opResult
+	if op.Kind != "walkiter" && c.Chance(1, 5) {
+		// the same operation with WithMassive, under the simulator (single root: the result is
+		// fully determined)
+		mop := op
+		mop.Massive = true
+		c.Scenario["op"] = mop.String()
+		c.st.Count("massive-from-root")
+		target := ""
+		var dp *DiskPlan
+		if needsFS(mop) {
+			target = filepath.Join(jail, "root", "t0")
+			if mop.Kind == "verify" {
+				prepDir(target, model, hr.Prep)
+			} else {
+				os.MkdirAll(target, 0o755)
+			}
+			dp = &DiskPlan{Jail: jail, Target: target, FailAt: -1}
+		}
+		o := c.Sim("root", mop, &Env{Node: root, Reader: noReaderFault, Writer: noWriterFault, Cb: noCbFault, Disk: dp, MaxSteps: 40000})
+		if len(o.Panics) > 0 || o.Hang || o.StepCap {
+			c.Failf("C03:massive-from-root-no-result:"+mop.Kind, "panics=%v hang=%v", o.Panics, o.Hang)
+		}
+		c.failLateEffects("C03", mop, o)
+		got = &opResult{Err: normErr(o.Err, target), Out: string(o.Out), Visits: o.Visits}
+		if target != "" {
+			got.Snap = snapString(snapshot(target))
+		}
+	}
 	d := simfs.NewDisk(jail)
 	simfs.Install(d)
-	got := execCall(hr, root, filepath.Join(jail, "root"), 0, false, nil, "")
+	if got == nil {
+		got = execCall(hr, root, filepath.Join(jail, "root"), 0, false, nil, "")
+	}
 	// From-Markdown counterpart
 	mdop := op
 	mdop.FromRoot = false
